@@ -564,7 +564,12 @@ func (ec *evalCtx) callSpec(x *spec.Call) Val {
 		// typeis(x, "T"): dynamic type of interface value x is T
 		v := ec.eval(x.Args[0])
 		name := x.Args[1].(*spec.StrLit).Val
-		return Val{T: smt.Eq(fc.dtype(ec.scalar(v, x)), fc.typeIDByName(name))}
+		t := ec.scalar(v, x)
+		if ec.inTrigger {
+			return Val{T: smt.Eq(fc.dtype(t), fc.typeIDByName(name))}
+		}
+		// a nil interface value has no dynamic type
+		return Val{T: smt.And(smt.Neq(t, smt.IntLit(0)), smt.Eq(fc.dtype(t), fc.typeIDByName(name)))}
 	case "update":
 		a, i, v := ec.eval(x.Args[0]), ec.eval(x.Args[1]), ec.eval(x.Args[2])
 		return Val{T: smt.SUpd(ec.seqOf(a, x), i.T, v.T)}
@@ -770,7 +775,12 @@ func (ec *evalCtx) callSpec(x *spec.Call) Val {
 	case "dtypeIs":
 		v := ec.eval(x.Args[0])
 		name := x.Args[1].(*spec.StrLit).Val
-		return Val{T: smt.Eq(fc.dtype(ec.scalar(v, x)), fc.typeIDByName(name))}
+		t := ec.scalar(v, x)
+		if ec.inTrigger {
+			return Val{T: smt.Eq(fc.dtype(t), fc.typeIDByName(name))}
+		}
+		// a nil interface value has no dynamic type
+		return Val{T: smt.And(smt.Neq(t, smt.IntLit(0)), smt.Eq(fc.dtype(t), fc.typeIDByName(name)))}
 	}
 	if sf, ok := fc.P.SpecFn[x.Fun]; ok && sf.Macro {
 		if len(sf.Params) != len(x.Args) {
